@@ -125,6 +125,9 @@ impl<T: Sync + Send + 'static> Worker<T> {
     }
 
     fn remove_in_flight_matches(&mut self) {
+        // the parallel scan records in-flight items in the order its chunks
+        // happen to run, the offset arithmetic below needs ascending indices
+        self.in_flight.sort_unstable();
         let mut off = 0;
         self.in_flight.retain(|&i| {
             let is_in_flight = self.items.get(i).is_none();
